@@ -4,8 +4,20 @@ package mast
 // on a tree and its model. It returns whether any delete succeeded.
 func applyOps(tag string, cur *Mast, md *symModel, cfg *RemoteConfig, K int, nops int) (*Mast, *symModel, bool) {
 	deleted := false
+	seq := verifBoundOr("SEQ."+tag, -1)
 	for i := 0; i < K; i++ {
-		switch verifChoose(tag+".op", nops) {
+		op := 0
+		if seq >= 0 {
+			// scenario-directed run: the i-th operation is the i-th decimal digit of SEQ.<tag>
+			d := seq
+			for j := i + 1; j < K; j++ {
+				d /= 10
+			}
+			op = d % 10
+		} else {
+			op = verifChoose(tag+".op", nops)
+		}
+		switch op {
 		case 0:
 			k, v := verifNondetKey("k"), verifNondetVal("v")
 			err := cur.Insert(vctx, symKey{k}, v)
@@ -54,7 +66,7 @@ func harnessC04(n int) {
 	K := verifBound("K")
 	bf := uint(verifBound("BF"))
 	st := newVStore("s1")
-	cfg := symConfig(st, nil)
+	cfg := symConfig(st, mkCache(verifBoundOr("CACHE", 0)))
 	cur, err := NewRoot(&CreateRemoteOptions{BranchFactor: bf}).LoadMast(vctx, cfg)
 	verifAssert("C01.new.err", err == nil)
 	md := &symModel{}
